@@ -225,14 +225,17 @@ func (b *Box) maybeGC() {
 
 	defer atomic.StoreUint64(&b.lastGC, now)
 
+	// What is found to have expired is removed under the same acquisition of the lock: a topic that is
+	// refreshed, or starts to buffer anew, after it was found to have expired must not be removed.
+	b.lock.Lock()
+	defer b.lock.Unlock()
+
 	topics2Delete := b.mark(now, epochsAfterWhichWeGC)
 	b.sweep(topics2Delete)
 }
 
+// sweep must be invoked while the lock of the box is held
 func (b *Box) sweep(topics2Delete []string) {
-	b.lock.Lock()
-	defer b.lock.Unlock()
-
 	for _, topic := range topics2Delete {
 		messages, exists := b.pendingMessages[topic]
 		if exists {
@@ -246,11 +249,9 @@ func (b *Box) sweep(topics2Delete []string) {
 	}
 }
 
+// mark must be invoked while the lock of the box is held
 func (b *Box) mark(now uint64, epochsAfterWhichWeGC time.Duration) []string {
 	var topics2Delete []string
-
-	b.lock.RLock()
-	defer b.lock.RUnlock()
 
 	for topic, messages := range b.pendingMessages {
 		messages.lock.RLock()
